@@ -188,6 +188,31 @@ def mixed_value_checks():
     return n, bad
 
 
+def preferred_engine_checks():
+    """Programs over two iteration engines whose last call names a preferred engine (chains of transferred branches, and
+    the shapes of multiprog.forced_backtrack_cases restricted to iteration engines): whatever the library did with the
+    request while building the tree, executing the result gives the rows — as a list — of the same operation applied at
+    the root.  Judged in Python (the single-engine model of this check has no preferred-engine options)."""
+    import multiprog as mp
+    its = [e for e in mp.ENGINES if e[0] == "it"]
+    bad, n = [], 0
+    for p in mp.chain_backtrack_cases(its):
+        q = ("un", p[1], mp.DEFAULT, p[3])
+        (w1, r1, res1), (w2, r2, res2) = mp.run_build(p), mp.run_build(q)
+        if r1 is None or r2 is None:
+            continue
+        n += 1
+        try:
+            got, want = list(r1.engine.execute(r1)), list(r2.engine.execute(r2))
+        except Exception as e:  # noqa: BLE001
+            bad.append({"program": jsonable(p), "problem": f"execute raised {type(e).__name__}: {e}"})
+            continue
+        if got != want:
+            bad.append({"program": jsonable(p), "built": str(r1), "rows": jsonable(got), "operation_applied_at_the_root": str(r2),
+                        "its_rows": jsonable(want)})
+    return n, bad
+
+
 def make_cases(rng, tier):
     progs = []
     progs += exhaustive_programs(2 if tier == "quick" else 3)
@@ -220,6 +245,9 @@ def run(ctx):
         found |= ctx.failing_case({"kind": "execute-raised", "case": c["json"]}, None)
     for c in sorted([c for c in cases if c["repeat_differs"]], key=lambda c: len(json.dumps(c["json"])))[:2]:
         found |= ctx.failing_case({"kind": "second-execution-of-the-same-relation-gave-other-rows", "case": c["json"]}, None)
+    n_pref, pref_bad = preferred_engine_checks()
+    for b in pref_bad[:2]:
+        found |= ctx.failing_case({"kind": "preferred-engine-request-changed-the-rows", "case": b}, None)
     n_mixed, mixed_bad = mixed_value_checks()
     for b in mixed_bad[:2]:
         found |= ctx.failing_case({"kind": "values-of-mixed-numeric-types", "case": b}, None)
@@ -236,6 +264,7 @@ def run(ctx):
         "traces_validated_against_impl": summ["evaluated"], "judgement": summ,
         "rejected_at_construction": sum(1 for c in cases if c["raised"]),
         "mixed_numeric_type_operations_compared_with_python": n_mixed,
+        "preferred_engine_requests_compared_with_root_application": n_pref,
         "samples": [cases[40]["json"]["program"], cases[-1]["json"]["program"]],
     })
     ctx.assumptions += ["deduplication is judged only where rows agreeing on key columns are equal (documented "
